@@ -31,6 +31,7 @@ func (r *mmapRef) AddRef() *mmapRef {
 
 	r.m.Lock()
 	r.refs++
+	verifRef("mmapRef", r, r.refs)
 	r.m.Unlock()
 
 	return r
@@ -44,6 +45,7 @@ func (r *mmapRef) DecRef() error {
 	r.m.Lock()
 
 	r.refs--
+	verifRef("mmapRef", r, r.refs)
 	if r.refs <= 0 {
 		r.mm.Unmap()
 		r.mm = nil
